@@ -186,7 +186,11 @@ class Concretiser:
         elif cls == "email":
             local = "zq%dx" % idn
             dom = ["canary-mail.example", "x.io", "sub.domain-%d.example.org" % idn][v % 3 if v else 0]
-            node, tok = ('str', local + "@" + dom), local
+            tok = local
+            if v and rng.random() < 0.5:
+                # mixed case (addresses are case-preserving): the canary is the part that survives any case folding
+                local, dom, tok = "Zq%dxA" % idn, dom.title().replace("Example", "EXAMPLE"), "q%dx" % idn
+            node = ('str', local + "@" + dom)
         elif cls == "empty":
             node = ('str', "")
         elif cls == "dollar" and self.fn_style and not m:
